@@ -229,7 +229,9 @@ def df_group(inp, W):
             a1=di.mean("v"), a2=lambda d: di.mean(d.v),
             b1=di.max("v"), b2=lambda d: di.max(d.v),
             c1=di.first("v"), c2=lambda d: di.first(d.v),
-            d1=di.count(), d2=lambda d: di.count(d.v))
+            d1=di.count(), d2=lambda d: di.count(d.v),
+            e1=di.nth("v", -2), e2=lambda d: di.nth(d.v, -2),
+            f1=di.last("v", drop_na=True), f2=lambda d: di.last(d.v, drop_na=True))
         return {"out": out}
     raise ValueError(mode)
 
@@ -389,8 +391,21 @@ def df_history(inp, W):
     di = W.di
     obs = []
     try:
-        f = di.DataFrame(**{name: (val if not isinstance(val, list) or not val or not isinstance(val[0], str) or val[0] not in ("scalar", "list", "array", "column") else _mkvalue(W, val))
-                            for name, val in inp["init"]})
+        cols = {name: (val if not isinstance(val, list) or not val or not isinstance(val[0], str) or val[0] not in ("scalar", "list", "array", "column") else _mkvalue(W, val))
+                for name, val in inp["init"]}
+        ctor = inp.get("ctor", "kwargs")
+        if ctor == "kwargs": f = di.DataFrame(**cols)
+        elif ctor == "dict": f = di.DataFrame(dict(cols))
+        elif ctor == "pairs": f = di.DataFrame(list(cols.items()))
+        elif ctor == "dict+kwargs":
+            first = next(iter(cols)); f = di.DataFrame({first: cols[first]}, **{k: v for k, v in cols.items() if k != first})
+        elif ctor == "frame+kwargs":
+            # the dict-style form: an existing frame as the positional argument plus keyword columns
+            first = next(iter(cols)); base = di.DataFrame(**{first: cols[first]})
+            f = di.DataFrame(base, **{k: v for k, v in cols.items() if k != first})
+        else: raise RuntimeError("unknown constructor form " + ctor)
+    except RuntimeError:
+        raise
     except Exception as e:
         return {"init": type(e).__name__, "obs": []}
     obs.append(["init", "ok", _observe(W, f)])
